@@ -835,3 +835,59 @@ def rule_modf2(prog, rep, tier, anchor="sync_properties.sync_property"):
                 loc(prog, bad[0])))
         else:
             rep.holds("MOD-F2", "%s: every definition of %s is a fresh node or a deepcopy (%d definition(s), %d field write(s))" % (anchor, name, len(defs), len(mutated)), loc(prog, defs[0]), "")
+
+
+def rule_modf2_conform(prog, rep, tier, anchor="conformance._conform_filename", table_owner="conformance.ground_truth"):
+    """MOD-F2 (sync): the node that is grafted into a target's tree (`replacement_node=` of the replacer, or appended with
+    emit.file) is built afresh for that target: every definition of it is a constructor call, a deepcopy, or a call of an
+    emitter of the dispatch table (each of which returns a freshly constructed node).  A node handed back from a cache,
+    a container or an attribute is shared between targets: the replacer mutates it for the first target (argument
+    conversion, `_keep`-style grafts) and the second target receives the altered node."""
+    from sa.rules.call import _tables
+    fi = prog.inl(prog.fn_role(anchor, "conform_file"))
+    emitters = [v for rows in _tables(prog, prog.fn(table_owner)).values() for _, row in rows for v in row.vals
+                if isinstance(v, FunctionInfo) and v.module.name == "emit"]
+    if len(emitters) < 2:
+        raise AnalysisError("MOD-F2: dispatch table of %s has no emitters" % table_owner)
+
+    def emitter_fresh(e):
+        rets = [r.value for r in ast.walk(e.node) if isinstance(r, ast.Return) and enclosing_fn(r) is e]
+        return bool(rets) and all(_fresh_value(prog, r) for r in rets)
+    all_fresh = all(emitter_fresh(e) for e in emitters)
+    params = set(fi.params())
+
+    def fresh(v):
+        if isinstance(v, ast.IfExp):
+            return fresh(v.body) and fresh(v.orelse)
+        if isinstance(v, ast.Call) and isinstance(v.func, ast.Name) and v.func.id in params and not prog.resolve_expr_fn(v.func, v):
+            return all_fresh  # a call through the emitter parameter
+        if isinstance(v, ast.Call) and isinstance(v.func, ast.Attribute) and isinstance(v.func.value, ast.Name) and v.func.value.id in params:
+            return all_fresh  # row.emit_func(...)
+        return _fresh_value(prog, v)
+    grafted = set()
+    for x in ast.walk(fi.node):
+        if isinstance(x, ast.Call):
+            for k in x.keywords:
+                if k.arg == "replacement_node" and isinstance(k.value, ast.Name):
+                    grafted.add(k.value.id)
+            if prog.is_fn(x.func, "emit.file", x) and x.args and isinstance(x.args[0], ast.Name):
+                grafted.add(x.args[0].id)
+    # the tree read from the target itself is the target's own
+    reads = {t.id for st in ast.walk(fi.node) if isinstance(st, ast.Assign) and any(isinstance(c, ast.Call) and prog.is_fn(c.func, "source_transformer.ast_parse", c) for c in ast.walk(st.value))
+             for t in st.targets if isinstance(t, ast.Name)}
+    grafted -= reads
+    if not grafted:
+        raise AnalysisError("MOD-F2: %s no longer hands a named node to the replacer / emit.file" % anchor)
+    for name in sorted(grafted):
+        defs = [st for st in ast.walk(fi.node) if isinstance(st, ast.Assign) and any(isinstance(t, ast.Name) and t.id == name for t in st.targets)]
+        bad = [d for d in defs if not fresh(d.value)]
+        if not defs:
+            rep.ob("MOD-F2", "%s: %s" % (anchor, name), "unresolved", loc(prog, fi.node), "no local definition of the grafted node")
+        elif bad:
+            rep.violation(Finding(
+                "MOD-F2", anchor, "shared-node:%s" % name,
+                "the node %s (%s) that is grafted into a target's tree is not built afresh for that target: it can be the very object already grafted into "
+                "(and altered for) an earlier target of the same run" % (name, src(bad[0].value, 60)), loc(prog, bad[0])))
+        else:
+            rep.holds("MOD-F2", "%s: every definition of %s is a fresh emitter result (%d definition(s); %d emitters all return constructor calls)"
+                      % (anchor, name, len(defs), len(emitters)), loc(prog, defs[0]), "")
